@@ -193,6 +193,9 @@ pub fn run_extension_oracle(cx: &mut Ctx, th: bool) {
     for mode in 0..4 {
         for &(kind, n) in shapes.iter().chain([(4u64, 100_000usize)].iter()) { big_case(cx, 2, mode, kind, n); }
     }
+    // exactly the size ZstdCompressor::decompress allows for (100 MiB; one byte more is refused by design)
+    big_case(cx, 0, 3, 1, 100 * 1024 * 1024);
+    if th { big_case(cx, 0, 2, 0, 100 * 1024 * 1024); big_case(cx, 1, 2, 1, 100 * 1024 * 1024); }
     // batches that overrun their deadline, every mode, fallback on and off
     for mode in 0..4 {
         for fallback in [true, false] {
